@@ -2236,3 +2236,63 @@ ASSUMPTIONS += [
     "mask function exactly; consumers outside pytype/blocks/ and pytype/vm.py "
     "(debug.py only prints the flag) do not take part in block bookkeeping",
 ]
+
+EXPLANATION += (
+    "  R15.28 (rules/c15_index_agreement.py): an element read `<x>.<S>[i]` "
+    "whose index runs over the length of ANOTHER object needs a length "
+    "agreement on every path.  The (length field, sequence field) pairs are "
+    "re-derived from `self.<L> = len(self.<S>)` in abstract/_instances.py "
+    "(today Tuple.tuple_length / pyval).  In vm_utils.py, vm.py, tracer_vm.py, "
+    "matcher.py and pattern_matching.py every `for i in range(<N>)` (statement "
+    "or comprehension; <N> possibly a once-bound local) that reads `<x>.<S>[i]` "
+    "is classified: own length (<N> is `<x>.<L>` / `len(<x>.<S>)`); lengths "
+    "compared on the path (`<x>.<L> == <y>.<L>` in the path condition); or "
+    "uniform group (<x> iterates over a collection <C> and <N> is the length of "
+    "`<C>[k]`): then a uniformity test of <C> - `all(d.<L> == <C>[k].<L> for d "
+    "in <C>)`, `len({d.<L> for d in <C>}) <= 1`, or a module-local predicate "
+    "whose every truthy return entails it (followed through nested predicates "
+    "and guard clauses) - must be in the path condition, and when the function "
+    "does not test it itself and <C> hangs off one of its parameters the "
+    "obligation moves to EVERY call site of that (private, module-level) "
+    "function: the path condition of the call must contain the uniformity test "
+    "of the argument (directly or via a once-bound flag), evaluated after the "
+    "last re-binding of the argument's names (must-dataflow).  Today: "
+    "_merge_tuple_bindings <- unpack_iterable under _var_is_fixed_length_tuple; "
+    "dropping the equal-length clause of the predicate (fine for its other "
+    "caller, match_sequence) lets `t = (1, 2, 3) if c else ('a', 'b'); a, *b = t` "
+    "raise IndexError out of the analysis.  Blind spots of R15.28: constant "
+    "and computed indices (`pyval[0]`, `pyval[i + 1]`), while-loops, sequence "
+    "fields without a mirrored length field (formal_type_parameters), "
+    "agreements weaker than equality (`>=` is refused as undecidable), public "
+    "functions or methods relying on their callers (refused), and the empty "
+    "collection (`<C>[0]` itself).  "
+    "R15.31 (rules/c15_span_tables.py): the line tables of the pattern-matching "
+    "branch tracker.  In pattern_matching.py every dict attribute created in a "
+    "class's __init__ and filled from a span object (a loop variable or "
+    "parameter of which two different fields are used as keys, set elements or "
+    "range bounds: the start/end line of a case pattern) is a span table; its "
+    "fills are complete (`for i in range(c.A, c.B + 1): self.T[i] = v`, update "
+    "with a dict comprehension or dict.fromkeys over that range, once-bound "
+    "locals followed, helper methods judged on their own) or endpoint "
+    "(`self.T[c.A] = v`).  Every read `<recv>.T[key]` in pattern_matching.py, "
+    "vm.py, vm_utils.py and tracer_vm.py is classified as guarded (`key in "
+    "<recv>.T` in the path condition / earlier in the same `and` / KeyError "
+    "handler) or unguarded.  A table with an unguarded read must have a "
+    "complete fill for every span it is filled from, both endpoints included: "
+    "the key of the readers is the line of the opcode being executed, which "
+    "may be any line of a multi-line pattern (`case (int() |\\n str() |\\n "
+    "bytes()):` puts MATCH_CLASS on the inner line), and KeyError is not caught "
+    "anywhere in vm.run_instruction.  Tables read only under guards or with "
+    ".get (as_names) may hold endpoints.  Blind spots of R15.31: that the "
+    "parser's spans really cover every opcode line of a pattern; reads whose "
+    "guard lives in the caller are counted as unguarded (that only makes the "
+    "demand on the fill stronger); tables of other modules (directors' line "
+    "sets have their own rules in C03).")
+ASSUMPTIONS += [
+    "R15.28: a mirrored length field is never re-assigned after __init__ and "
+    "the sequence field is not resized afterwards (abstract.Tuple is "
+    "immutable); two objects are the same iff they are spelled the same",
+    "R15.31: tables are identified by their attribute name in the VM-layer "
+    "modules; a span object is recognised by two different fields of one "
+    "local being used as keys/bounds in the filling method",
+]
